@@ -84,7 +84,7 @@ def instantiations(tier, seed):
     rng = random.Random(seed * 31 + 5)
     out = []
     skels = [s for s in F.curated() if all((lo, hi) == (0, 1) for lo, hi in pl.leaves(s).values())]
-    n = 25 if tier == "quick" else 300
+    n = 40 if tier == "quick" else 1000
     for _ in range(n):
         skels.append(F.random_skeleton(rng, max_nodes=rng.choice([3, 4, 5, 7]), int_leaves=False, connectives=CONNECTIVES))
     skels.append(F.N("ExactlyOne", F.a(), F.b(), F.c(), id="A"))
